@@ -199,5 +199,5 @@ def check_consistency(case, ctx):
 
 
 def subchecks():
-    return [HypSub("parfront", parfront_cases, check_parfront, 30000, 300000),
+    return [HypSub("parfront", parfront_cases, check_parfront, 45000, 300000),
             HypSub("consistent_with", consistency_cases, check_consistency, 12000, 200000)]
